@@ -87,7 +87,7 @@ func (g *gen) alphaPool(n int) [][]byte {
 	for i := 0; i < nst; i++ {
 		l := pick(r, stemLens)
 		if long {
-			l = pick(r, []int{63, 64, 65, 100, 130})
+			l = pick(r, []int{63, 64, 65, 100, 130, 255, 256, 300}) // (compressed paths beyond one byte of length too)
 		}
 		s := make([]byte, l)
 		base := pick(r, boundaryBytes)
